@@ -252,6 +252,8 @@ func c16Base(c *Ctx) {
 							}
 							connErr := error(nil)
 							connected := false
+							doneSeen, discAtDone := false, false
+							var errAtDone error
 							if o == "racing" && ca != "accept" || o == "racing" && e != "none" && d == "none" {
 								// the ending races with Connect itself
 								vrt.Go("connect", func() { _, connErr = cli.Connect(vctx.Background(), "c16"); connected = true })
@@ -262,6 +264,11 @@ func c16Base(c *Ctx) {
 								connected = true
 								if connErr == nil {
 									m.sampleHealthy("after Connect")
+									// an observer that waits for Done() and then asks why
+									vrt.GoDaemon("done-watch", func() {
+										vrt.Recv(cli.Done())
+										doneSeen, errAtDone, discAtDone = true, cli.Err(), m.dStart >= 0
+									})
 								}
 								switch o {
 								case "end-first":
@@ -291,6 +298,9 @@ func c16Base(c *Ctx) {
 								vrt.Failf("c16/connect-succeeded-without-connack", "Connect returned nil although no accepting CONNACK was sent\n%s", ctx())
 							}
 							m.judge(fmt.Sprintf("CONNACK %s, ending %s, %s, %s", ca, e, d, o), c16DoneClosed(cli), ctx)
+							if doneSeen && errAtDone == nil && !discAtDone {
+								vrt.Failf("c16/done-closed-while-err-nil", "an observer woken by Done() read Err() == nil although the connection ended without Disconnect having been called (CONNACK %s, ending %s, %s, %s)\n %s\n%s", ca, e, d, o, m.String(), ctx())
+							}
 						},
 						Observe: func() uint64 { return net.TraceHash() },
 					}
@@ -380,7 +390,22 @@ func c16Reconnecting(c *Ctx) {
 							}
 						}
 						isLast := i == len(r.bases)-1
-						if isLast && discStart >= 0 {
+						// The application's Disconnect addresses whatever connection the client holds at
+						// that moment: the one on which the DISCONNECT packet was attempted.  (A Disconnect
+						// that coincides with a redial can address the connection that has just ended
+						// while the loop is already establishing the next one.)
+						addressed := false
+						for _, e := range r.net.Trace {
+							if e.Conn == cn.ID && e.Dir == '>' && e.Pkt != nil && e.Pkt.Type == env.DISCONNECT {
+								addressed = true
+							}
+						}
+						if discStart >= 0 && !addressed && isLast && int64(m.ackAt)*1e6 >= discStart {
+							// established while Disconnect was already under way and never addressed by it:
+							// the statement says nothing about such a connection (it stays up; see DESIGN 9.3)
+							continue
+						}
+						if discStart >= 0 && (addressed || isLast) {
 							m.dStart, m.dEnd = int(discStart/1e6), int(discEnd/1e6)
 						}
 						if m.endAt < 0 && sil >= 0 {
